@@ -243,7 +243,7 @@ def expand_defaults(terms):
     return out
 
 
-def results_by_kind(body, lib, kinds_of, max_steps=4000, extra_call=None):
+def results_by_kind(body, lib, kinds_of, max_steps=4000, extra_call=None, by_path=False):
     """Every value the body can return when the values named by the terms in `kinds_of` ({term: kind}) have those kinds —
     however the kinds are inspected (match on the value, accessor case analysis, is_x()) and wherever the result is wrapped
     (per arm, or once after the case analysis): the provenance of the result is taken along each feasible path."""
@@ -274,9 +274,12 @@ def results_by_kind(body, lib, kinds_of, max_steps=4000, extra_call=None):
 
     w = Walker(body, Origins(body, lib), atom=atom, call=call, max_steps=max_steps)
     out = set()
+    per = []
     for path, leaf in w.walk():
-        out |= set(w.result_on_path(path))
-    return out
+        r = set(w.result_on_path(path))
+        per.append((path, r))
+        out |= r
+    return per if by_path else out
 
 
 def ok_payloads(terms):
